@@ -32,14 +32,33 @@ from .yp_prolog_visitor import *
 from .yp_generator import *
 import contextlib
 import click
-from .errors import CompilerError
+from antlr4.error.ErrorListener import ErrorListener
+from .errors import CompilerError, CompilerSyntaxError
+
+class _RaisingErrorListener(ErrorListener):
+    '''Turns every error reported by the lexer or the parser into an exception, instead
+    of letting ANTLR print it and recover.'''
+    def __init__(self, filename):
+        self.filename = filename
+    def syntaxError(self, recognizer, offendingSymbol, line, column, msg, e):
+        raise CompilerSyntaxError(self.filename, line, column, msg)
 
 def _compile_prolog_from_stream(inp, ctx):
     '''compiles prolog source from an antlr4 stream.'''
+    listener = _RaisingErrorListener(getattr(ctx, 'current_source_file', ''))
     lexer = prologLexer(inp)
+    lexer.removeErrorListeners()
+    lexer.addErrorListener(listener)
     stream = CommonTokenStream(lexer)
     parser = prologParser(stream)
+    parser.removeErrorListeners()
+    parser.addErrorListener(listener)
     tree = parser.program()
+    rest = stream.LT(1)
+    if rest.type != Token.EOF:
+        # the grammar's start rule stops at the first token that cannot start a clause
+        raise CompilerSyntaxError(listener.filename, rest.line, rest.column,
+                                  f"unexpected input '{rest.text}'")
     visitor = YPPrologVisitor(ctx)
     program = visitor.visit(tree)
     compiler = YPPrologCompiler(ctx)
